@@ -75,6 +75,9 @@ def base_cfg(algo, seed, rng):
         cfg["low"], cfg["high"] = [-1.0], [1.0]
     if algo in ("reinforce", "actor_critic", "a2c"):
         cfg["discrete"] = bool(rng.integers(2))
+    if rng.random() < 0.5:
+        from vf.algos import random_options
+        cfg["options"] = random_options(algo, rng)
     if algo in RESUMABLE and rng.random() < 0.5:
         # continued run: non-zero starting step count, absolute budget
         cfg["global_step"] = int(rng.integers(5, 12))
